@@ -16,7 +16,7 @@ RULE = ("cmp: all ordered pairs from a boundary-rich pool per family (addresses 
         "arith: (object, integer) with results at -1,0,1,max-1,max,max+1 and random; setters: every prefix length through each of the "
         "setter names, offsets at -1,0,1,hostmask-1,hostmask,hostmask+1; sort: sorted() of random lists vs the stable insertion sort by lt_ref. "
         "non-trivial: cmp = same network or same address (tie-break levels of the key); arith = result within 1 of a bound; "
-        "setters = argument within 1 of a bound; distinct by the listed key.")
+        "setters = argument within 1 of a bound; distinct by the listed key. In the arith and setters streams the object is hashed before the change and the result is compared (==, !=, hash) with an independently built object of the same (address, prefix length).")
 EXHAUSTIVE = {"quick": False, "thorough": False}
 TRUSTED = [
     "Coq 8.16.1 kernel incl. vm_compute (no native_compute)",
@@ -137,9 +137,13 @@ def run_arith(c):
     x = _mk(c["W"], c["a"], c["p"])
     try:
         r = (x + c["n"]) if c["op"] == 0 else (x - c["n"])
-        return [int(r.as_decimal), int(r.prefixlen)]
+        o = [int(r.as_decimal), int(r.prefixlen)]
     except BaseException:
         return None
+    y = _mk(c["W"], o[0], o[1])
+    if not (r == y and hash(r) == hash(y) and not (r != y)):
+        return [-7, -7]               # eq/hash broken on the result of the arithmetic
+    return o
 
 
 def lit_opt(o):
@@ -175,11 +179,17 @@ def gen_set(rng, tier, escalate):
 
 def run_set(c):
     x = _mk(c["W"], c["a"], c["p"])
+    h0 = hash(x)                      # hashed once before the change (a cached hash must not survive it)
     try:
         setattr(x, c["name"], c["arg"])
-        return [int(x.as_decimal), int(x.prefixlen)]
+        r = [int(x.as_decimal), int(x.prefixlen)]
     except BaseException:
         return None
+    # the changed object against an independently built object of the same (address, prefix length)
+    y = _mk(c["W"], r[0], r[1])
+    if not (x == y and y == x and hash(x) == hash(y) and not (x != y)):
+        return [-7, -7]               # never agrees with the model: eq/hash broken after a setter
+    return r
 
 
 def lit_set(c, o):
